@@ -548,6 +548,104 @@ LegalEdge(a, b) ==
     \/ a = SCHEDULED /\ b \in {RUNNING, RELEASED, VIRTUAL, CANCELLED}
     \/ a = RUNNING /\ b \in {COMPLETED}
 ----------------------------------------------------------------------------
+(* C18: the scheduling frontier -- TaskGraph.get_schedulable_tasks transcribed.     *)
+(* Graph.topological_sort: depth-first post-order over the nodes in insertion       *)
+(* order, reversed.                                                                 *)
+RECURSIVE TopoVisit(_, _, _, _)
+RECURSIVE TopoVisitAll(_, _, _, _)
+TopoVisit(S, n, done, acc) ==          \* returns <<done, acc>>
+    IF n \in done THEN <<done, acc>>
+    ELSE LET r == TopoVisitAll(S, Children(S, n), done \cup {n}, acc)
+         IN  <<r[1], Append(r[2], n)>>
+TopoVisitAll(S, ns, done, acc) ==
+    IF ns = <<>> THEN <<done, acc>>
+    ELSE LET r == TopoVisit(S, Head(ns), done, acc) IN TopoVisitAll(S, Tail(ns), r[1], r[2])
+Reverse(s) == [i \in 1..Len(s) |-> s[Len(s) + 1 - i]]
+TopoOrder(S, g) == Reverse(TopoVisitAll(S, GTasks(S, g), {}, <<>>)[2])
+
+\* resolve_conditional for a task that completed (the branch actually taken: highest probability, first on ties)
+TakenChild(S, t) ==
+    LET ch == Children(S, t) IN
+    CHOOSE c \in Range(ch) :
+        \E i \in 1..Len(ch) : /\ ch[i] = c
+                              /\ \A j \in 1..Len(ch) : S.ts[ch[j]].prob <= S.ts[c].prob
+                              /\ \A j \in 1..(i - 1) : S.ts[ch[j]].prob < S.ts[c].prob
+\* children the estimate is propagated to (policy ALL; a completed conditional: the taken branch)
+PropChildren(S, t) ==
+    IF S.tk[t].cond /\ IsDone(S, t) THEN <<TakenChild(S, t)>> ELSE Children(S, t)
+
+\* initial estimates: <<task, estimated completion>> for the materialised tasks, in node order
+InitEst(S, g, now, retract) ==
+    LET f(t) == LET st == S.ts[t].st IN
+                IF st = COMPLETED THEN S.ts[t].fin
+                ELSE IF st \in {RUNNING, PREEMPTED, EVICTED} THEN now + RemT(S, t)
+                ELSE IF st = RELEASED THEN Max2(S.ts[t].rel, now) + RemT(S, t)
+                ELSE IF st = SCHEDULED THEN (IF retract THEN now + SlowestRt(S, t) ELSE S.ts[t].plan.tm + RemT(S, t))
+                ELSE -1
+    IN  SelectSeq([i \in 1..Len(GTasks(S, g)) |-> <<GTasks(S, g)[i], f(GTasks(S, g)[i])>>],
+                  LAMBDA x : S.ts[x[1]].st \notin {CANCELLED, VIRTUAL})
+
+\* the propagation loop: `est` is a function task -> estimate (-1 = absent), `queue` a sequence of tasks
+RECURSIVE Propagate(_, _, _, _)
+RECURSIVE PropKids(_, _, _, _, _, _)
+PropKids(S, kids, ct, retract, est, queue) ==       \* returns <<est, queue>>
+    IF kids = <<>> THEN <<est, queue>>
+    ELSE LET c == Head(kids)
+             skip == (~retract /\ S.ts[c].st # VIRTUAL) \/ (retract /\ S.ts[c].st \notin {VIRTUAL, SCHEDULED})
+             cct == Max2(ct + SlowestRt(S, c), S.ts[c].rel + SlowestRt(S, c))
+         IN  IF skip \/ ~(est[c] = -1 \/ cct > est[c])
+             THEN PropKids(S, Tail(kids), ct, retract, est, queue)
+             ELSE PropKids(S, Tail(kids), ct, retract, [est EXCEPT ![c] = cct], Append(queue, c))
+Propagate(S, retract, est, queue) ==
+    IF queue = <<>> THEN est
+    ELSE LET t == Head(queue)
+             r == PropKids(S, PropChildren(S, t), est[t], retract, est, Tail(queue))
+         IN  Propagate(S, retract, r[1], r[2])
+
+Estimates(S, g, now, retract) ==
+    LET ie == InitEst(S, g, now, retract)
+        est0 == [t \in 1..NT(S) |-> IF \E i \in 1..Len(ie) : ie[i][1] = t
+                                   THEN ie[CHOOSE i \in 1..Len(ie) : ie[i][1] = t][2] ELSE -1]
+    IN  Propagate(S, retract, est0, [i \in 1..Len(ie) |-> ie[i][1]])
+
+\* the selection loop over the topological order
+RECURSIVE SelectOffer(_, _, _, _, _, _, _, _)
+SelectOffer(S, order, est, now, la, retract, rtg, anyRel) ==
+    IF order = <<>> THEN <<>>
+    ELSE LET t == Head(order)  st == S.ts[t].st
+             inEst == est[t] # -1 \/ st \notin {CANCELLED, VIRTUAL}
+             take == \/ (st = RELEASED /\ S.ts[t].rel <= now + la)
+                     \/ st \in {PREEMPTED, EVICTED}
+                     \/ (st = VIRTUAL /\ est[t] # -1 /\ ((anyRel /\ rtg) \/ est[t] <= now + la + RemT(S, t)))
+                     \/ (retract /\ st = SCHEDULED /\ ((anyRel /\ rtg) \/ est[t] <= now + la + SlowestRt(S, t)))
+             any2 == anyRel \/ st \in {COMPLETED, RUNNING} \/ take
+         IN  (IF take /\ st \notin {COMPLETED, RUNNING} THEN <<t>> ELSE <<>>)
+             \o SelectOffer(S, Tail(order), est, now, la, retract, rtg, any2)
+
+SchedulableG(S, g, now, la, retract, rtg) ==
+    SelectOffer(S, TopoOrder(S, g), Estimates(S, g, now, retract), now, la, retract, rtg, FALSE)
+\* Workload.get_schedulable_tasks (no preemption): the graphs in workload order
+Schedulable(S, now, la, retract, rtg) ==
+    Flatten([i \in 1..Len(S.wl) |-> SchedulableG(S, S.wl[i], now, la, retract, rtg)])
+\* the transcription is exact when no random branch prediction is involved
+FrontierDeterministic(S, pol) ==
+    pol = "ALL" \/ ~\E t \in 1..NT(S) : S.tk[t].cond /\ ~IsDone(S, t) /\ S.ts[t].st # CANCELLED /\ S.tk[t].g \in Range(S.wl)
+
+\* contract clauses (hold for every branch-prediction policy)
+C18_NoStarvation(S, now, res) == \A t \in 1..NT(S) : (S.ts[t].st = RELEASED /\ S.ts[t].rel <= now /\ S.tk[t].g \in Range(S.wl)) => InSeq(t, res)
+C18_NoDead(S, res) == \A i \in 1..Len(res) : S.ts[res[i]].st \notin {COMPLETED, CANCELLED}
+C18_ScheduledOnlyIfRetract(S, res, retract, pre) == \A i \in 1..Len(res) : S.ts[res[i]].st = SCHEDULED => (retract \/ pre)
+C18_RunningOnlyIfPreempt(S, res, pre) == \A i \in 1..Len(res) : S.ts[res[i]].st = RUNNING => pre
+C18_ParentsDone(S, res, la, rtg) ==
+    (la = 0 /\ ~rtg) => \A i \in 1..Len(res) : S.ts[res[i]].st \in {VIRTUAL, RELEASED} => ParentsOK(S, res[i])
+\* monotone in the lookahead and in release_taskgraphs (evaluated on the specification's own frontier)
+C18_Monotone(S, now, la, retract) ==
+    /\ Range(Schedulable(S, now, la, retract, FALSE)) \subseteq Range(Schedulable(S, now, la + 1, retract, FALSE))
+    /\ Range(Schedulable(S, now, la, retract, TRUE)) \subseteq Range(Schedulable(S, now, la + 1, retract, TRUE))
+    /\ Range(Schedulable(S, now, la, retract, FALSE)) \subseteq Range(Schedulable(S, now, la, retract, TRUE))
+C18_NoDuplicates(res) == \A i, j \in 1..Len(res) : i # j => res[i] # res[j]
+
+----------------------------------------------------------------------------
 (* CSV rows (C08).  A row is [ty |-> type, f |-> <<integers>>, res |-> <<[name,id,q]>>]; *)
 (* task-bearing rows carry the task index and an `ok` flag (1 iff the row's name,     *)
 (* task-graph and timestamp columns are those of that task), computed by the parser. *)
